@@ -1009,7 +1009,7 @@ impl Tokenizer {
                     brackets += 1;
                 }
                 '>' => {
-                    if brackets > 2 {
+                    if brackets >= 2 {
                         self.data.end = self.raw.end - "]]>".len();
 
                         return true;
